@@ -68,6 +68,9 @@ pub fn cases(prop: &str, seed: u64, tier: &str) -> Vec<String> {
             for i in 0..b.mappings {
                 let m = if i % 5 == 4 {
                     { let g = gen_mapping(&mut r, &REP); String::from_utf8_lossy(&mutate(&mut r, &g)).to_string() }
+                } else if i % 12 == 5 {
+                    // many class blocks from a small name pool: duplicates among more than 20 blocks
+                    gen_mapping(&mut r, &GenOpts { dom: Dom::Representable, max_classes: 60, noise: true })
                 } else {
                     gen_mapping(&mut r, &REP)
                 };
